@@ -714,13 +714,9 @@ func dectotOne(c *Ctx, t *dectotTarget, b []byte, limit int, what string) {
 				want = "e4"
 			}
 			if strict.class != want {
-				if strict.class == "ok" && dectotFWB5Class(eager.m, 50) {
-					c.Known("FWB5", "C06", "the decode loop ignores an uninitialized message value of a non-first oneof member")
-					c.Stat("known_FWB5")
-					fwb5 = true
-				} else {
-					fail("strict Unmarshal verdict " + strict.class + " but CheckInitialized says " + want)
-				}
+				// (FWB5, repaired in /repo by 4b33314: the witness stays in the corpus, a regression is a failure)
+				fwb5 = strict.class == "ok" && dectotFWB5Class(eager.m, 50)
+				fail("strict Unmarshal verdict " + strict.class + " but CheckInitialized says " + want)
 			}
 			c.Stat(fmt.Sprintf("checkinit_%v", ci))
 		} else if strict.class != eager.class {
@@ -732,13 +728,8 @@ func dectotOne(c *Ctx, t *dectotTarget, b []byte, limit int, what string) {
 		} else if (uerr == nil) != (eager.class == "ok") {
 			fail("methods.Unmarshal and proto.Unmarshal verdicts differ")
 		} else if uerr == nil && uinit && !ci {
-			if dectotFWB5Class(eager.m, 50) {
-				c.Known("FWB5", "C06", "the decode loop ignores an uninitialized message value of a non-first oneof member")
-				c.Stat("known_FWB5")
-				fwb5 = true
-			} else {
-				fail("Unmarshal reports a partial message as initialized")
-			}
+			fwb5 = fwb5 || dectotFWB5Class(eager.m, 50)
+			fail("Unmarshal reports a partial message as initialized")
 		}
 		if t.validable {
 			st, vinit, pan := dectotValidate(t.mt, tight, limit)
@@ -1177,11 +1168,7 @@ func dectotCorpus(c *Ctx, targets []*dectotTarget) {
 	for _, n := range []string{"goproto.proto.test.TestOneofWithRequired", "opaque.goproto.proto.testeditions.TestOneofWithRequired"} {
 		if t := dectotFind(c, targets, n); t != nil {
 			ensure(t)
-			before := c.stats["known_FWB5"]
 			dectotOne(c, t, []byte{0x12, 0x00}, 0, "corpus_FWB5")
-			if c.stats["known_FWB5"] == before {
-				c.Stat("FWB5_witness_passes")
-			}
 			dectotOne(c, t, []byte{0x12, 0x02, 0x08, 0x01}, 0, "corpus")
 			dectotOne(c, t, []byte{0x08, 0x01}, 0, "corpus")
 		}
